@@ -299,6 +299,51 @@ impl<'a> VisitMut for Rw<'a> {
 
         // R9: `"literal".to_owned()` / `"literal".to_string()` -> str_to_string("literal") (String from a literal has no vstd spec);
         // an exprmap naming this very call takes precedence
+        // R9b (same opt-in): `X == "literal"` / `X != "literal"` (String or &str against a literal: no vstd spec) -> [!]vx_str_eq(&(X), "literal")
+        let mut cmp_repl: Option<Expr> = None;
+        if self.maps.litstrings {
+            if let Expr::Binary(b) = &*e {
+                let is_eq = matches!(b.op, BinOp::Eq(_));
+                let is_ne = matches!(b.op, BinOp::Ne(_));
+                if is_eq || is_ne {
+                    let l_lit = matches!(&*b.left, Expr::Lit(ExprLit { lit: Lit::Str(_), .. }));
+                    let r_lit = matches!(&*b.right, Expr::Lit(ExprLit { lit: Lit::Str(_), .. }));
+                    if l_lit != r_lit {
+                        let (x, lit) = if r_lit { (&b.left, &b.right) } else { (&b.right, &b.left) };
+                        let key = norm(&b.to_token_stream());
+                        if !self.maps.exprmap.iter().any(|(k, _)| *k == key) {
+                            cmp_repl = Some(if is_eq { parse_quote!(vx_str_eq(&(#x), #lit)) } else { parse_quote!(!vx_str_eq(&(#x), #lit)) });
+                        }
+                    }
+                }
+            }
+        }
+        if let Some(ne) = cmp_repl {
+            self.logit("R9", line, norm(&e.to_token_stream()), norm(&ne.to_token_stream()));
+            *e = ne;
+        }
+        // R9c (same opt-in): str methods taking a char literal (`Pattern` is generic: no vstd spec can be given) -> spec'd stand-ins
+        let mut chr_repl: Option<Expr> = None;
+        if self.maps.litstrings {
+            if let Expr::MethodCall(m) = &*e {
+                let name = m.method.to_string();
+                if m.args.len() == 1 && ["starts_with", "ends_with", "strip_prefix", "strip_suffix", "trim_start_matches", "trim_end_matches", "contains"].contains(&name.as_str()) {
+                    if let Expr::Lit(ExprLit { lit: Lit::Char(_), .. }) = &m.args[0] {
+                        let key = norm(&m.to_token_stream());
+                        if !self.maps.exprmap.iter().any(|(k, _)| *k == key) {
+                            let f = Ident::new(&format!("vx_str_{name}_char"), Span::call_site());
+                            let recv = &m.receiver;
+                            let a = &m.args[0];
+                            chr_repl = Some(parse_quote!(#f(#recv, #a)));
+                        }
+                    }
+                }
+            }
+        }
+        if let Some(ne) = chr_repl {
+            self.logit("R9", line, norm(&e.to_token_stream()), norm(&ne.to_token_stream()));
+            *e = ne;
+        }
         let mut lit_repl: Option<Expr> = None;
         if let Expr::MethodCall(m) = &*e {
             if self.maps.litstrings && (m.method == "to_owned" || m.method == "to_string") && m.args.is_empty() {
@@ -582,6 +627,7 @@ impl VisitMut for ForEach {
 
 /// R11c: Option-combinator desugaring (opt-in per function, because the receiver type is not known syntactically):
 ///   R.and_then(|p| B) -> match R { Some(p) => B, None => None }      R.map(|p| B) -> match R { Some(p) => Some(B), None => None }
+///   R.map_err(|p| B) -> match R { Ok(v) => Ok(v), Err(p) => Err(B) }
 ///   R.filter(|p| B) -> match R { Some(v) => { let p = &v; if B { Some(v) } else { None } } None => None }
 ///   R.ok_or_else(|| B) -> R.ok_or(B)    R.unwrap_or_else(|| B) -> R.unwrap_or(B)    R.or_else(|| B) -> match R { Some(v) => Some(v), None => B }
 /// Closures containing `return` or `?` are left alone.
@@ -643,6 +689,7 @@ impl VisitMut for OptDesugar {
                     ("ok_or_else", 0) => Some(parse_quote!(#recv.ok_or(#body))),
                     ("unwrap_or_else", 0) => Some(parse_quote!(#recv.unwrap_or(#body))),
                     ("or_else", 0) => Some(parse_quote!(match #recv { Some(__vx_v) => Some(__vx_v), None => #body })),
+                    ("map_err", 1) => { let p = &c.inputs[0]; Some(parse_quote!(match #recv { Ok(__vx_v) => Ok(__vx_v), Err(#p) => Err(#body) })) }
                     ("filter", 1) => { let p = &c.inputs[0]; Some(parse_quote!(match #recv { Some(__vx_v) => { let #p = &__vx_v; if #body { Some(__vx_v) } else { None } } None => None })) }
                     _ => None,
                 };
